@@ -18,6 +18,12 @@ Oracle (odxmodel.refcompare, by ODX object identity, no odxtools):
     the generated database `shared` has its ECU-SHARED-DATA layer in a second container after layers with comparams;
   * additionally every ordered pair of different layers of a base database (`compare -v A B`) is judged by the same
     identity-based difference.
+  * CLI phase: `odxtools compare F [-db ...] [-v ...]` and `odxtools list ...` are run in-process through
+    odxtools.cli.main.start_cli() (sys.argv patched, stdout captured; the result objects handed to
+    Comparison.print_database_changes / print_dl_changes, the section headers and the overview tables are intercepted):
+    the sections must be "first file compared to the k-th -db file" in order, the content of every section must be
+    the identity-based difference of exactly the two inputs its header names (same content -> nothing, edited copy ->
+    exactly its edit), and every overview table must show the numbers of the database / layers it is printed for.
 The Comparison object is set up the way odxtools.cli.compare.run() does it.  Where the reference cannot decide by the
 property statement alone (two services of a layer with the same constant request prefix, one short name denoting
 different services) the case is counted as out of envelope instead of judged (0 such cases among the edits).
@@ -377,6 +383,8 @@ def run_case(case: Dict[str, Any], part: Optional[Part] = None) -> List[Tuple[st
     """One unit: {"db", "edit": None|kind, "target": [...], "deep": bool}.  Returns all (key, detail) found."""
     out: List[Tuple[str, str]] = []
     cnt = part.count if part is not None else (lambda *a, **k: None)
+    if case.get("cli"):
+        return run_cli_case(case, part)
     db_id, edit, target = case["db"], case.get("edit"), case.get("target")
     files, db, aux = base(db_id)
 
@@ -474,6 +482,258 @@ def run_case(case: Dict[str, Any], part: Optional[Part] = None) -> List[Tuple[st
     return out
 
 
+# ---------------------------------------------------------------------------------------------
+# CLI phase: `odxtools compare ...` and `odxtools list ...` through odxtools.cli.main.start_cli()
+# ---------------------------------------------------------------------------------------------
+def judge_rows(rows: Dict[str, Dict[str, str]], want: Dict[str, Dict[str, Any]], names: List[str], tag: str, keybase: str) -> List[Tuple[str, str]]:
+    out: List[Tuple[str, str]] = []
+    if sorted(rows) != sorted(names):
+        out.append((f"{keybase}/overview-rows", f"{tag}overview lists {sorted(rows)}, requested {sorted(names)}"))
+    for n in names:
+        r, w = rows.get(n), want.get(n)
+        if r is None or w is None:
+            continue
+        s, d, c = cell(r, "service"), cell(r, "dop"), cell(r, "communication")
+        lo, hi = w["comparams"]
+        if s != str(w["services"]) or d != str(w["dops"]) or c is None or not c.isdigit() or not lo <= int(c) <= hi:
+            out.append((f"{keybase}/overview-numbers", f"{tag}layer {n}: overview says services={s} DOPs={d} comparams={c}; the XML of that "
+                                                       f"database has {w['services']} / {w['dops']} / {lo}{'' if lo == hi else '..' + str(hi)}"))
+    return out
+
+
+def table_rows(t: Any) -> Dict[str, Dict[str, str]]:
+    cols = [(str(c.header), [str(x) for x in c.cells]) for c in t.columns]
+    n = len(cols[0][1]) if cols else 0
+    return index_rows([{h: cells[i] for h, cells in cols} for i in range(n)])
+
+
+def drive_cli(argv: List[str]) -> List[Tuple[str, Any]]:
+    """Run `odxtools <argv>` in-process exactly as the console script does (odxtools.cli.main.start_cli with sys.argv
+    patched, stdout captured) and return the event stream: ("text", str) for everything the compare tool prints
+    itself, ("table", rows) for every overview table, ("db_changes", observation) / ("dl_changes", observation) for
+    the result objects the tool hands to Comparison.print_database_changes / print_dl_changes."""
+    import sys
+    import odxtools.exceptions as ox
+    from odxtools.cli import _print_utils as pu
+    from odxtools.cli import compare as cmp
+    from odxtools.cli import main as cli_main
+    events: List[Tuple[str, Any]] = []
+    depth = {"db": 0}
+    orig = {"pu": pu.rich_print, "cmp": cmp.rich_print, "pdc": cmp.Comparison.print_database_changes,
+            "pdl": cmp.Comparison.print_dl_changes}
+
+    def rec_pu(*a: Any, **k: Any) -> None:
+        for x in a:
+            if hasattr(x, "columns") and hasattr(x, "add_row") and any("number of" in str(c.header).lower() for c in x.columns):
+                events.append(("table", table_rows(x)))
+
+    def rec_cmp(*a: Any, **k: Any) -> None:
+        if depth["db"] == 0:
+            for x in a:
+                if isinstance(x, str):
+                    events.append(("text", x))
+
+    def pdc(self: Any, changes: Dict[str, Any]) -> None:
+        events.append(("db_changes", {"new_layers": sorted(dl.short_name for dl in changes["new_diagnostic_layers"]),
+                                      "deleted_layers": sorted(dl.short_name for dl in changes["deleted_diagnostic_layers"]),
+                                      "layers": {k: observe_layer(v) for k, v in changes.items() if isinstance(v, dict)}}))
+        depth["db"] += 1
+        try:
+            orig["pdc"](self, changes)  # the real printing code runs as well
+        finally:
+            depth["db"] -= 1
+
+    def pdl(self: Any, sd: Dict[str, Any]) -> None:
+        if depth["db"] == 0:
+            events.append(("dl_changes", observe_layer(sd)))
+        depth["db"] += 1
+        try:
+            orig["pdl"](self, sd)
+        finally:
+            depth["db"] -= 1
+
+    old_argv, old_strict = sys.argv, ox.strict_mode
+    pu.rich_print, cmp.rich_print = rec_pu, rec_cmp  # type: ignore[assignment]
+    cmp.Comparison.print_database_changes, cmp.Comparison.print_dl_changes = pdc, pdl  # type: ignore[assignment]
+    sys.argv = ["odxtools"] + list(argv)
+    try:
+        with contextlib.redirect_stdout(io.StringIO()):
+            try:
+                cli_main.start_cli()
+            except SystemExit as e:
+                events.append(("exit", e.code))
+    finally:
+        sys.argv = old_argv
+        ox.strict_mode = old_strict
+        pu.rich_print, cmp.rich_print = orig["pu"], orig["cmp"]  # type: ignore[assignment]
+        cmp.Comparison.print_database_changes, cmp.Comparison.print_dl_changes = orig["pdc"], orig["pdl"]  # type: ignore[assignment]
+    return events
+
+
+def cli_variants(db_id: str) -> Dict[str, Dict[str, str]]:
+    """the databases of the CLI phase: a = base, a2 = the same documents again, b = first applicable rename,
+    c = semantic edit of the first parameter of the request of the LAST service (another service than b's if possible)"""
+    files = ec.base_files(db_id, repo_root())
+    svcs, _ = ec.targets(files)
+    out = {"a": files, "a2": files}
+    for s in svcs:
+        try:
+            out["b"] = ec.apply_edit(files, "rename", [s])[0]
+            break
+        except ec.NotApplicable:
+            continue
+    m = ref.Model(files)
+    last = svcs[-1]
+    rq = m.services[last].find("REQUEST-REF").get("ID-REF")
+    out["c"] = ec.apply_edit(files, "semantic", [rq, 0])[0]
+    return out
+
+
+def write_pdx(path: str, files: Dict[str, str], aux: Dict[str, bytes]) -> None:
+    with zipfile.ZipFile(path, "w") as z:
+        for fn in sorted(files):
+            z.writestr(fn, files[fn])
+        for n, data in sorted(aux.items()):
+            z.writestr(n, data)
+
+
+def run_cli_case(case: Dict[str, Any], part: Optional[Part] = None) -> List[Tuple[str, str]]:
+    out: List[Tuple[str, str]] = []
+    cnt = part.count if part is not None else (lambda *a, **k: None)
+    db_id = case["db"]
+    aux = ec.base_aux(db_id, repo_root())
+    var = cli_variants(db_id)
+    d = os.path.join(emit.scratch_dir(), f"c18cli_{os.getpid()}_{next(_counter)}")
+    os.makedirs(d)
+    try:
+        path = {}
+        for k, f in var.items():
+            path[k] = os.path.join(d, k + ".pdx")
+            write_pdx(path[k], f, aux)
+        want = {k: ref.metrics(f) for k, f in var.items()}
+        all_layers = list(want["a"])
+        if case["cli"] == "list":
+            for argv_tail, names in (([], all_layers), (["-v"] + list(reversed(all_layers)) + ["-s", "-p"], list(reversed(all_layers))),
+                                     (["-v", all_layers[-1], "-a"], [all_layers[-1]])):
+                ev = drive_cli(["list", path["a"]] + argv_tail)
+                tables = [x for t, x in ev if t == "table"]
+                cnt("evaluations")
+                cnt("cli_list_runs")
+                if len(tables) != 1:
+                    out.append(("C18/cli-list/overview-missing", f"`list {' '.join(argv_tail)}` printed {len(tables)} overview tables"))
+                    continue
+                out.extend(judge_rows(tables[0], want["a"], names, f"`list {' '.join(argv_tail)}`: ", "C18/cli-list"))
+            return out
+        first, dbs, use_v = case["first"], case.get("dbs", []), case.get("variants")
+        with_services = [n for n in all_layers if want["a"][n]["services"] > 0]
+        variants = (with_services[:2] if len(with_services) >= 2 else all_layers[:2]) if use_v else None
+        argv = ["compare", path[first]]
+        if dbs:
+            argv += ["-db"] + [path[k] for k in dbs]
+        if variants:
+            argv += ["-v"] + variants
+        try:
+            ev = drive_cli(argv)
+        except Exception as e:
+            return [(f"C18/cli-compare/raises/{type(e).__name__}", f"`compare {first} -db {dbs} -v {variants}`: {type(e).__name__}: {e}")]
+        cnt("cli_compare_runs")
+        tag = f"`compare {first}.pdx" + (f" -db {' '.join(k + '.pdx' for k in dbs)}" if dbs else "") + (f" -v {' '.join(variants)}" if variants else "") + "`"
+        if dbs:
+            mode = "db+variants" if variants else "db"
+            # sections: header "Changes in file 'X" / "(compared to 'Y')", two overview tables, one result
+            sections: List[Dict[str, Any]] = []
+            cur: Dict[str, Any] = {"x": None, "y": None, "tables": []}
+            for t, x in ev:
+                if t == "text":
+                    m1 = re.search(r"Changes in file '([^'\n]+)", x)
+                    m2 = re.search(r"compared to '([^'\n]+)", x)
+                    if m1:
+                        cur["x"] = m1.group(1)
+                    if m2:
+                        cur["y"] = m2.group(1)
+                elif t == "table":
+                    cur["tables"].append(x)
+                elif t == "db_changes":
+                    cur["obs"] = x
+                    sections.append(cur)
+                    cur = {"x": None, "y": None, "tables": []}
+            heads = [[s_["x"], s_["y"]] for s_ in sections]
+            want_heads = [[first + ".pdx", k + ".pdx"] for k in dbs]
+            if heads != want_heads:
+                out.append((f"C18/cli-compare/{mode}/sections", f"{tag}: report sections {heads}, expected {want_heads}"))
+                return out
+            shown = variants if variants else all_layers
+            for k, sec in zip(dbs, sections):
+                exp = ref.expected_changes(var[first], var[k])
+                exp["layers"] = {n: e for n, e in exp["layers"].items() if n in shown}
+                if exp["ambiguous"]:
+                    cnt("out_of_envelope_ambiguous_prefix")
+                    continue
+                extra = sorted(set(sec["obs"]["layers"]) - set(shown))
+                if extra:
+                    out.append((f"C18/cli-compare/{mode}/unrequested-layers", f"{tag}: section {first} vs {k} reports on layers {extra}"))
+                out.extend(judge(f"cli-compare/{mode}", None, exp, sec["obs"], f"{tag} section '{first}.pdx' compared to '{k}.pdx'"))
+                if len(sec["tables"]) != 2:
+                    out.append((f"C18/cli-compare/{mode}/overview-missing", f"{tag}: {len(sec['tables'])} overview tables in the section"))
+                else:
+                    out.extend(judge_rows(sec["tables"][0], want[first], shown, f"{tag} overview of {first}.pdx: ", f"C18/cli-compare/{mode}"))
+                    out.extend(judge_rows(sec["tables"][1], want[k], shown, f"{tag} overview of {k}.pdx: ", f"C18/cli-compare/{mode}"))
+                cnt("evaluations", len(exp["layers"]) + 2)
+                cnt("cli_sections")
+                if part is not None and any(l[c] for l in exp["layers"].values() for c in CATS):
+                    part.add("nontrivial", digest((db_id, "cli", first, tuple(dbs), k, bool(variants))))
+        else:
+            # `compare <pdx> -v L1 L2 ...`: consecutive layers (database order) are compared with each other
+            pairs = ref.expected_layer_pairs(var[first])
+            sel = [n for n in all_layers if n in (variants or [])]
+            heads2: List[Tuple[Optional[str], Optional[str]]] = []
+            obs2: List[Dict[str, Any]] = []
+            x = y = None
+            for t, v in ev:
+                if t == "text":
+                    m1 = re.search(r"Changes in diagnostic layer '([^'\n]+)", v)
+                    m2 = re.search(r"compared to '([^'\n]+)", v)
+                    if m1:
+                        x = m1.group(1)
+                    if m2:
+                        y = m2.group(1)
+                elif t == "dl_changes":
+                    heads2.append((x, y))
+                    obs2.append(v)
+                    x = y = None
+            want2 = [(sel[i], sel[i + 1]) for i in range(len(sel) - 1)]
+            if heads2 != want2:
+                out.append(("C18/cli-compare/variants/sections", f"{tag}: report sections {heads2}, expected {want2}"))
+                return out
+            for (a, b), o in zip(heads2, obs2):
+                pe = pairs[f"{a}/{b}"]
+                if pe["ambiguous"]:
+                    continue
+                out.extend(judge("cli-compare/variants", None, {"new_layers": [], "deleted_layers": [], "layers": {f"{a}/{b}": pe["diff"]}},
+                                 {"new_layers": [], "deleted_layers": [], "layers": {f"{a}/{b}": o}}, f"{tag} section {a} compared to {b}"))
+                cnt("evaluations")
+                cnt("cli_sections")
+        return out
+    finally:
+        shutil.rmtree(d, ignore_errors=True)
+
+
+def cli_cases(db_ids: List[str]) -> List[Dict[str, Any]]:
+    """`compare F -db <every ordered selection of 1..3 of the other files>` for F in {a, b}, with and without -v;
+    `compare a -v ...`; three `list` invocations per database"""
+    cases: List[Dict[str, Any]] = []
+    for db_id in db_ids:
+        cases.append({"db": db_id, "cli": "list"})
+        cases.append({"db": db_id, "cli": "compare", "first": "a", "dbs": [], "variants": True})
+        for first in ("a", "b"):
+            others = ["b", "a2", "c"] if first == "a" else ["a", "a2", "c"]
+            for n in (1, 2, 3):
+                for sel in itertools.permutations(others, n):
+                    for v in (False, True):
+                        cases.append({"db": db_id, "cli": "compare", "first": first, "dbs": list(sel), "variants": v})
+    return cases
+
+
 def cleanup() -> None:
     """pool workers are terminated without running atexit handlers, so the per-process scratch directory is removed
     explicitly (emit.scratch_dir() re-creates it on demand)"""
@@ -514,6 +774,7 @@ def all_cases(db_ids: List[str], deep: bool) -> List[Dict[str, Any]]:
 def run(ctx: Ctx) -> None:
     db_ids = QUICK_DBS if ctx.quick else THOROUGH_DBS
     cases = all_cases(db_ids, deep=not ctx.quick)
+    clis = cli_cases(db_ids)
     per_db = Counter(c["db"] for c in cases)
     ctx.bounds = {"databases": db_ids, "service_edits": ec.SERVICE_EDITS, "param_edits": ec.PARAM_EDITS,
                   "roles_of_the_edited_input": ["edited-new", "edited-old"], "cases_per_database": dict(per_db),
@@ -534,7 +795,10 @@ def run(ctx: Ctx) -> None:
         "COMPARAM-REFs after overriding by (comparam, protocol); a literally repeated COMPARAM-REF may or may not be counted",
         "GLOBAL-NEG-RESPONSEs, structures and single ECU jobs are not compared by the tool and are not edited",
     ]
-    chunks = [cases[i:i + 6] for i in range(0, len(cases), 6)]
+    ctx.bounds["cli_invocations"] = {"total": len(clis), "compare": "first file a (base) or b (rename); -db every ordered selection of "
+                                     "1..3 of the other files among a / a2 (same content) / b (rename) / c (semantic edit); each with and "
+                                     "without -v <two layers>; plus `compare a -v`", "list": "no option; -v <all layers reversed> -s -p; -v <last layer> -a"}
+    chunks = [cases[i:i + 6] for i in range(0, len(cases), 6)] + [clis[i:i + 4] for i in range(0, len(clis), 4)]
     pmap(ctx, unit, chunks)
     c = ctx.counts
     for e in ec.SERVICE_EDITS + ec.PARAM_EDITS:
@@ -545,6 +809,7 @@ def run(ctx: Ctx) -> None:
     ctx.guard("all four change kinds expected somewhere", {"new", "deleted", "rename"} <= ctx.sets.get("expected_kinds", set()))
     ctx.guard("metrics table captured", ctx.sets.get("metrics_capture", set()) <= {"table-object", "text"} and bool(ctx.sets.get("metrics_capture")))
     ctx.guard("metric rows checked", c.get("metric_rows", 0) > 0)
+    ctx.guard("CLI: compare sections and list runs judged", c.get("cli_sections", 0) > 0 and c.get("cli_list_runs", 0) > 0)
     sh = ref.metrics(ec.base_files("shared", repo_root()))
     order = list(sh)
     ctx.guard("a layer without communication parameters (ECU-SHARED-DATA) is listed after layers that have some",
